@@ -133,7 +133,8 @@ Record tool : Type := {
   t_pre : list precheck;                (* early returns, in source order *)
   t_argv_uses : list (nat * tok);       (* argv[k] read after the early returns *)
   t_blocks : list block;
-  t_unknown_exit : option Z }.          (* if (num_options==0) exit(c) *)
+  t_unknown_exit : option Z;            (* if (num_options==0) exit(c) *)
+  t_documented : list tok }.            (* option names introduced by the help text *)
 
 Definition nmand (b : block) : nat :=
   if b_multi b then mandatory (b_parms b) else List.length (b_parms b).
@@ -270,3 +271,7 @@ Fixpoint nodupb (l : list tok) : bool :=
 Definition all_aliases (t : tool) : list tok := flat_map b_aliases (t_blocks t).
 Definition aliases_ok (t : tool) : bool :=
   nodupb (all_aliases t) && forallb (fun b => forallb (fun v => existsb (tok_eqb v) (b_aliases b)) (b_variant b)) (t_blocks t).
+
+(* every option name the help text documents is accepted by some option block *)
+Definition documented_ok (t : tool) : bool :=
+  forallb (fun a => existsb (tok_eqb a) (flat_map b_aliases (t_blocks t))) (t_documented t).
